@@ -47,6 +47,14 @@ inductive Outcome (α : Type) where
   | panic (msg : String)
 deriving Repr
 
+/-- `for x in &v { body }` on the state the body changes: a left fold over the elements -/
+def forEach {α σ : Type} (l : List α) (init : σ) (body : α → σ → σ) : σ :=
+  l.foldl (fun s x => body x s) init
+
+/-- `IndexSet::insert(x)` on a duplicate-free list in insertion order: appended when absent; the `Bool` is "newly inserted" -/
+def indexSetInsert {α : Type} [BEq α] (s : List α) (x : α) : List α × Bool :=
+  if s.contains x then (s, false) else (s ++ [x], true)
+
 /-- `for i in 0..n { body }` on the state the body changes -/
 def forRange {σ : Type} (n : Nat) (init : σ) (body : Nat → σ → σ) : σ :=
   (List.range n).foldl (fun s i => body i s) init
